@@ -150,7 +150,7 @@ def run_pair(case: dict, env: worldb.SimEnv, scratch: str) -> dict:
     def file_side():
         try:
             return kernel.canon_tree(XonshParser.parse_file(path))
-        except (worldb._Alarm, worldb._Budget):
+        except (worldb._Alarm, worldb._Budget, worldb._Stall):
             raise
         except BaseException as e:  # noqa: BLE001
             raw_exc[0] = e
@@ -159,7 +159,7 @@ def run_pair(case: dict, env: worldb.SimEnv, scratch: str) -> dict:
     def string_side():
         try:
             return kernel.canon_tree(XonshParser.parse_string(content, mode="exec"))
-        except (worldb._Alarm, worldb._Budget):
+        except (worldb._Alarm, worldb._Budget, worldb._Stall):
             raise
         except BaseException as e:  # noqa: BLE001
             return kernel.canon_exception(e)
